@@ -311,7 +311,7 @@ class extract_visitor(NodeVisitor):
             if it.optional_vars:
                 for nn, _idx in get_indexes_for_target(it.optional_vars, [], []):
                     name = nn  # type: ast.Name # type: ignore[assignment]
-                    self.flow.add_name(AssignedName(name.id, np(node.body[0]), np(name), node))
+                    self.flow.add_name(AssignedName(name.id, get_expr_end(it.context_expr), np(name), node))
 
         self.generic_visit(node)
 
